@@ -6,7 +6,9 @@ from . import c1819_lib as U
 from lib.ctx import MachineryError
 
 SRC_UID, SRC_GID = 1234, 2345
+NOBODY = 65534
 _LOCK = threading.Lock()
+_SEEN = set()
 ATIME_NS, MTIME_NS = 1300000000111222333, 1200000000444555666
 OLD_MTIME_NS = 1100000000000000007
 PLAIN = b"attrs payload\n" * 40
@@ -30,6 +32,23 @@ def make_scenarios(rng, rounds, mode_pool):
                            dstKind=dstk, nameOK=rng.random() < 0.85,
                            payloadOK=(rng.random() < 0.85), ownOK=rng.random() < 0.75, grpOK=rng.random() < 0.5,
                            chmodOK=rng.random() < 0.85, root=True))
+        # the setuid / setgid / sticky classes, each alone and combined: refused in the strict configuration,
+        # accepted (and dropped from the target) with --keep / --force
+        for special in range(1, 8):
+            for keep, force in ((False, False), (True, False), (False, True)):
+                opmode = rng.choice(["compress", "decompress"])
+                sc.append(dict(id=len(sc), opmode=opmode, keep=keep, force=force, stdout=False,
+                               nowarn=rng.random() < 0.3, quiet=0, kind="reg", smode=(special << 9) | rng.randrange(512), nlink=1,
+                               uidSame=rng.random() < 0.5, gidSame=rng.random() < 0.5, dstKind="none", nameOK=True, payloadOK=True,
+                               ownOK=True, grpOK=rng.random() < 0.5, chmodOK=True, root=True))
+        # unprivileged runs (xz as nobody): fchown() to a foreign owner / group fails by itself, the owner failure
+        # is silent (warn_fchown is false), the group failure warns and restricts the mode
+        for us, gs in ((True, True), (False, False), (True, False)):
+            for keep, force in ((False, False), (True, False), (False, True)):
+                sc.append(dict(id=len(sc), opmode=rng.choice(["compress", "decompress"]), keep=keep, force=force, stdout=False,
+                               nowarn=rng.random() < 0.3, quiet=0, kind="reg", smode=rng.choice([0o644, 0o664, 0o755, 0o647, 0o674, 0o657]),
+                               nlink=1, uidSame=us, gidSame=gs, dstKind="none", nameOK=True, payloadOK=True,
+                               ownOK=us, grpOK=gs, chmodOK=True, root=False))
     return sc
 
 LINE = re.compile(rb'^(\d+)\s+(\w+)\((.*)\)\s+= (-?\d+|\?)(.*)$')
@@ -127,7 +146,17 @@ def run_scenario(ctx, xz, sc, pred, payload_xz, idx):
         os.mkdir(sp)
     else:
         real = None
-    suid, sgid = (0 if sc["uidSame"] else SRC_UID), (0 if sc["gidSame"] else SRC_GID)
+    # "me" is the user xz runs as: root, or nobody for the scenarios with root = FALSE (then a source that is
+    # not ours belongs to root, so that fchown() fails on its own, without fault injection)
+    nonroot = not sc["root"]
+    me_u, me_g = (NOBODY, NOBODY) if nonroot else (0, 0)
+    suid = me_u if sc["uidSame"] else (0 if nonroot else SRC_UID)
+    sgid = me_g if sc["gidSame"] else (0 if nonroot else SRC_GID)
+    if nonroot:
+        os.chown(d, NOBODY, NOBODY)
+        xz_run = os.path.join(ctx.workdir, "xz-copy")
+    else:
+        xz_run = xz
     if real:
         os.chown(real, suid, sgid)
         os.chmod(real, sc["smode"])
@@ -143,7 +172,9 @@ def run_scenario(ctx, xz, sc, pred, payload_xz, idx):
     argv = ["strace", "-f", "-qq", "-o", os.path.join(d, "strace.log"),
             "-e", "trace=openat,open,unlink,unlinkat,fchown,fchmod,utimensat,newfstatat,lstat,stat"]
     # the first fchown sets the owner, the second (if the groups differ) the group
-    if not sc["ownOK"] and not sc["grpOK"]:
+    if nonroot:
+        pass                                  # the kernel refuses by itself
+    elif not sc["ownOK"] and not sc["grpOK"]:
         argv += ["-e", "inject=fchown:error=EPERM:when=1..2"]
     elif not sc["ownOK"]:
         argv += ["-e", "inject=fchown:error=EPERM:when=1"]
@@ -151,13 +182,15 @@ def run_scenario(ctx, xz, sc, pred, payload_xz, idx):
         argv += ["-e", "inject=fchown:error=EPERM:when=2"]
     if not sc["chmodOK"]:
         argv += ["-e", "inject=fchmod:error=EPERM:when=1"]
-    argv += [xz, "-z" if comp else "-d", "-0"]
+    argv += [xz_run, "-z" if comp else "-d", "-0"]
     argv += (["-k"] if sc["keep"] else []) + (["-f"] if sc["force"] else []) + (["-c"] if sc["stdout"] else [])
     argv += (["-Q"] if sc["nowarn"] else []) + ["-q"] * sc["quiet"] + ["--", src]
     old_umask = os.umask(0o022)
     try:
+        def drop():
+            os.setgroups([]); os.setgid(NOBODY); os.setuid(NOBODY)
         p = subprocess.Popen(argv, cwd=d, stdin=subprocess.DEVNULL, stdout=subprocess.PIPE, stderr=subprocess.PIPE,
-                             env=U.tool_env())
+                             env=U.tool_env(), preexec_fn=drop if nonroot else None)
         th = None
         if kind == "fifo":
             th = threading.Thread(target=_feed_fifo, args=(sp, data, p)); th.start()
@@ -177,8 +210,11 @@ def run_scenario(ctx, xz, sc, pred, payload_xz, idx):
     label = "%s:%s%s%s%s" % (sc["opmode"], kind, ":k" if sc["keep"] else "", ":f" if sc["force"] else "", ":c" if sc["stdout"] else "")
     def bad(what, detail):
         with _LOCK:
+            if ("files:%s:%s" % (what, label)) in _SEEN:
+                return
+            _SEEN.add("files:%s:%s" % (what, label))
             ctx.violation("files:%s:%s" % (what, label), detail + " | scenario=%s | xz stderr=%r" % (json.dumps(sc), err[:300]),
-                          dict(kind="file_scenario", scenario=sc, predicted=pred, observed_calls=calls, argv=argv[argv.index(xz):]))
+                          dict(kind="file_scenario", scenario=sc, predicted=pred, observed_calls=calls, argv=argv[argv.index(xz_run):]))
     # ---- system calls
     want = pred["sys"]
     got_cmp = []
@@ -239,7 +275,7 @@ def run_scenario(ctx, xz, sc, pred, payload_xz, idx):
                 bad("target_mode", "target mode %04o, model %04o (source %04o)" % (m, pd["mode"], sc["smode"]))
             if m & ~(sc["smode"] & 0o777) and m != 0o600:
                 bad("target_mode_broader", "target mode %04o broader than source %04o" % (m, sc["smode"]))
-            eu, eg = (suid if pd["uid"] == "src" else 0), (sgid if pd["gid"] == "src" else 0)
+            eu, eg = (suid if pd["uid"] == "src" else me_u), (sgid if pd["gid"] == "src" else me_g)
             if (after_dst["uid"], after_dst["gid"]) != (eu, eg):
                 bad("target_owner", "target uid:gid %d:%d, model %d:%d" % (after_dst["uid"], after_dst["gid"], eu, eg))
             if pd["times"] == "src" and (after_dst["atime_ns"], after_dst["mtime_ns"]) != (ATIME_NS, MTIME_NS):
